@@ -150,6 +150,17 @@ def run_case(case):
         via = case.get("via", "api")
         if via == "api":
             res = core.call(phase.run, gaf, d + "/h.tsv", d + "/out.gaf")
+        elif via == "cli" and len(lines) % 2 == 0:
+            # run from inside the data directory, all paths relative, -o a bare file name
+            import os
+
+            cwd = os.getcwd()
+            os.chdir(d)
+            try:
+                res = core.cli(["phase", os.path.basename(gaf), "h.tsv", "-o", "out.gaf"])
+            finally:
+                os.chdir(cwd)
+            cl_rel = True
         elif via == "cli":
             res = core.cli(["phase", gaf, d + "/h.tsv", "-o", d + "/out.gaf"])
         else:  # documented default: standard output
